@@ -1,4 +1,5 @@
 import Txtpp.Lemmas.ConcreteTrace
+import Txtpp.Lemmas.ConcreteSched
 import Txtpp.Lemmas.Term
 import Txtpp.Lemmas.CoordScanInv
 import Txtpp.Lemmas.SeenClosure
@@ -135,5 +136,24 @@ theorem concrete_run_budget (cfg : Txt.Cfg) (fs : Txt.FS) (inputs : List (List C
     hist.length ≤ 2 * s.names.length ∧ (hist.map Prod.fst).Nodup ∧
     ((Txt.runProject cfg fs inputs).1 = .outOfFuel → 2 * (fs.files.length + 4) ≤ s.names.length) :=
   Txt.trace_budget cfg fs inputs idx s hist ht
+
+/-- **every delivery order, concrete passes.** `runProjectSched cfg choices` is `Txtpp::run` over the model file
+system where `choices` decides, at every step, which task of the pool is run and delivered next (the reference run
+is the order "always the oldest"). Whatever the order: the trace is an execution of the coordinator, the run never
+reaches the panic branch, `ok` means every file the coordinator heard of completed a pass that ended `ok`,
+`circular` is justified by a cycle among the dependency lists this run reported, and there are at most two
+deliveries per file named, each task once. (That all orders leave the same *bytes* is C02 over the abstract worker
+model; it is not proved for the concrete passes.) -/
+theorem every_delivery_order_concrete (cfg : Txt.Cfg) (choices : List Nat) (fs : Txt.FS) (inputs : List (List Char))
+    (v : Txt.Verdict) (idx : List File) (s : Txt.PSt) (hist : List (Task × Res))
+    (ht : Txt.runProjectSched cfg choices fs inputs = some (v, idx, s, hist)) :
+    FReach idx s.st hist ∧ v ≠ .panic ∧
+    (v = .ok → s.st.pool = [] ∧ (∀ i ∈ idx, i ∈ s.st.seen) ∧
+      (∀ f ∈ s.st.seen, ∃ b, (Task.pp f b, Res.ok f) ∈ hist) ∧
+      (∀ f deps, (Task.pp f true, Res.hasDeps f deps) ∈ hist → ∀ d ∈ deps, d ∈ s.st.seen)) ∧
+    (v = .circular → s.st.pool = [] ∧ ∃ w : World, (∀ t r, (t, r) ∈ hist → w.result t = r) ∧
+      ∃ f, (∃ d, f ∈ s.st.dm.inE d) ∧ ReachesCycle w.deps f) ∧
+    hist.length ≤ 2 * s.names.length ∧ (hist.map Prod.fst).Nodup :=
+  Txt.every_delivery_order cfg choices fs inputs v idx s hist ht
 
 end C03
